@@ -34,7 +34,7 @@ GRID = [
     ([{"id": "LZMA2", "preset": 1}], "zero", 1024), ([{"id": "LZMA", "preset": 1}], "zero", 1024), ([{"id": "BZIP2"}], "zero", 512), ([{"id": "COPY"}], "rand", 512),
     ([{"id": "DEFLATE"}], "zero", 1024), ([{"id": "DEFLATE64"}], "zero", 512), ([{"id": "ZSTD", "level": 3}], "zero", 1024), ([{"id": "BROTLI", "level": 4}], "zero", 1024),
     ([{"id": "PPMD", "order": 6, "mem": 24}], "zero", 256), ([{"id": "X86"}, {"id": "LZMA2", "preset": 1}], "period", 1024), ([{"id": "LZMA2", "preset": 1}, {"id": "AES"}], "zero", 768),
-    ([{"id": "COPY"}, {"id": "AES"}], "rand", 512), ([{"id": "DELTA"}, {"id": "LZMA2", "preset": 1}], "period", 768), ([{"id": "X86"}, {"id": "LZMA", "preset": 1}], "zero", 512),
+    ([{"id": "COPY"}, {"id": "AES"}], "rand", 896), ([{"id": "DELTA"}, {"id": "LZMA2", "preset": 1}], "period", 768), ([{"id": "X86"}, {"id": "LZMA", "preset": 1}], "zero", 512),
     ([{"id": "X86"}, {"id": "BZIP2"}], "zero", 512), ([{"id": "ZSTD", "level": 3}, {"id": "AES"}], "zero", 768), ([{"id": "LZMA2", "preset": 1}], "rand", 512),
     ([{"id": "ARM"}, {"id": "DEFLATE"}], "period", 512),
 ]
